@@ -35,6 +35,13 @@ pub fn gen_c14(run: &mut Run, seed: u64, thorough: bool) {
                 }
             }
         }
+        // one receiver is (in half of the tokens) so rich that a payout to it overflows inside the TOKEN contract:
+        // the service's own checks pass, the transfer fails, and the whole call must fail with it
+        for t in &tokens {
+            if rng.chance(1, 2) {
+                run.op(&format!("sac.mint {} {} {}", t.tok(), receivers[1].tok(), i128::MAX - rng.range(0, 12) as i128), "env-mint-near-max");
+            }
+        }
         let mut cur_owner = owner.clone();
         for _ in 0..len {
             let tok = if rng.chance(1, 25) { Addr::c(77) } else { rng.pick(&tokens).clone() };
